@@ -23,6 +23,7 @@ def g_v3cfg(u, need_auth=False, need_priv=False):
     # correctly: names long enough to need a long-form length sit right in front of the auth field
     ul = (0, 1, 4, 8, 16, 31, 32, u.below(33), 8, 5, 127, 128, 200, 255, 256, 300)[u.below(16)]
     cfg.user = "".join(chr(97 + (b % 26)) for b in u.take(ul))
+    cfg.via_set_keys = u.below(3) == 0
     return cfg
 
 
@@ -72,15 +73,23 @@ def undescribe(case):
     return gen.cfg_from_json(case["_cfg"]), steps
 
 
-def execute(G, cfg, steps, oracles, on_request=None):
-    """Run a history.  oracles: subset of {'structure','mac','priv','values'}.
+def execute(G, cfg, steps, oracles, on_request=None, on_failed_send=None):
+    """Run a history.  oracles: subset of {'structure','mac','priv','values','stale_pad'}.
     on_request(model, m, dgram, step_index, installation) is called for every emitted datagram."""
     link = ag.NbLink()
     info = {"requests": 0, "after_unanswered": 0, "after_clear_recv": 0, "long_form": 0, "kinds": set()}
     try:
-        cl = drivers.NbClient(G, cfg, link)
+        if cfg.via_set_keys:
+            # created with throw-away credentials, then re-keyed: exactly what the clients do after discovery
+            tmp = ag.Cfg("v3", user="tmp", engine_id=cfg.engine_id, auth="md5", auth_kt="localized")
+            cl = drivers.NbClient(G, tmp, link)
+            cl.sock.set_keys(*cfg.raw_args(cfg.engine_id))
+            cl.cfg = cfg
+        else:
+            cl = drivers.NbClient(G, cfg, link)
         model = wire.SessionModel(cfg)
         installation = 0
+        last_plain = []  # plaintexts that passed through the cipher's buffer most recently (reply, request)
         prev_unanswered = False
         prev_clear = False
         for idx, st in enumerate(steps):
@@ -102,6 +111,8 @@ def execute(G, cfg, steps, oracles, on_request=None):
                     raise core.Failure("encode-error-but-sent", "%r raised SnmpEncodeError yet a datagram was sent" % (call,))
                 # whether a request of this size must fit is C17's question, not this property's
                 info["kinds"].add("encode_error")
+                if on_failed_send:
+                    on_failed_send(idx, installation)
                 continue
             got = link.recv_all()
             if len(got) != 1:
@@ -115,6 +126,16 @@ def execute(G, cfg, steps, oracles, on_request=None):
                 wire.check_mac(model, m, d)
             if "priv" in oracles:
                 wire.check_priv(model, m)
+            if "stale_pad" in oracles and cfg.priv:
+                pad = m["pad"]
+                if len(pad) >= 4 and any(pad):
+                    for what, old in last_plain:
+                        for i in range(len(pad) - 3):
+                            if any(pad[i:i + 4]) and pad[i:i + 4] in old:
+                                raise core.Failure("stale-bytes-in-padding:" + cfg.priv,
+                                                   "request %d over %s: padding %s repeats octets of the %s that went through the cipher buffer before (%s)"
+                                                   % (idx, cfg.describe(), pad.hex(), what, old[-24:].hex()))
+                last_plain = [x for x in last_plain if x[0] == "previous reply"][-1:] + [("previous request", m["plain"][:m["scoped_end"]])]
             if on_request:
                 on_request(model, m, d, idx, installation)
             info["requests"] += 1
@@ -161,6 +182,9 @@ def execute(G, cfg, steps, oracles, on_request=None):
                     prev_clear = True
                 else:
                     link.send(ag.build_reply(cfg, m, vbs, boots=b, time=t, **kw))
+                    if cfg.priv:
+                        sc = rb.scoped_pdu(model.engine_id, b"", rb.pdu(rb.PDU_RESPONSE, m["request_id"], 0, 0, vbs))
+                        last_plain = [x for x in last_plain if x[0] == "previous request"][-1:] + [("previous reply", sc + (kw.get("pad_bytes") or b""))]
                     txt = rb.oid_text(name)
                     want = {"get": val, "get_many": {txt: val}, "getnext": (txt, val), "getbulk": [(txt, val)]}[recv_op]
                     expect = ("ok", want)
